@@ -146,6 +146,44 @@ def run(rep, tier, seed, replay=None):
             base_want[cid] = v.want
             rep.count("extreme-durations:" + fam)
 
+    # the largest retry counts where an attempt actually FAILS before the server answers (a lost first reply, a failed first
+    # send), through the definition-driven generic query of every protocol — also the protocols that never retry: whatever a
+    # query computes from the count after a failure must not overflow
+    import importlib
+    from props import dispatch_cases
+    import netcases as _nc
+    for fam in dispatch_cases.ARMS:
+        if fam not in netprops.FAMILIES:
+            continue
+        d = netprops.FAMILIES[fam]
+        fmod = importlib.import_module("props.families." + fam)
+        vs = [x for x in netprops.valid_cases(fam, seed + 18, 60) if not x.notwf and x.want.startswith("OK")]
+        if hasattr(fmod, "c10_eligible"):
+            vs = [x for x in vs if fmod.c10_eligible(x)]
+        for bi, v in enumerate(vs[: (2 if tier == "quick" else 12)]):
+            for vec in ("SV", "FV"):
+                if hasattr(fmod, "c10_build"):
+                    line = fmod.c10_build(v, fmod.c10_units(v)[0], vec, 1, "x")
+                    c = _nc.Case(line, d["nargs"])
+                else:
+                    c = v.case()
+                    if not c.script or c.script[0] == "X":
+                        continue
+                    if vec == "SV":
+                        c.script[0] = [None] + c.script[0]
+                    else:
+                        c.opts = [o for o in c.opts if not o.startswith("f=")] + ["f=1"]
+                for n in (UMAX, UMAX - 1):
+                    if "retries" in d:
+                        c.args[d["retries"]] = "0"
+                    dl = dispatch_cases.retarget(fam, c, f"{v.id}rx{vec}{n % 10}", k=1)
+                    if dl is None:
+                        continue
+                    toks = dl.split(" ")
+                    toks[4] = str(n)          # <id> dispatch <game> <port> <retries> <extra> …
+                    cases.append(" ".join(toks))
+                    rep.count("extreme-retries-after-a-failure:" + fam)
+
     # extra REQUEST settings of every size on answered queries: host names around every length the handshake encodes specially
     # (127/128, 255/256, 16383/16384 bytes, tens of kilobytes), made of 1-, 2-, 3- and 4-byte characters so that every such
     # byte offset falls inside a character for some of them; protocol versions at the i32 limits
